@@ -256,9 +256,37 @@ func (lc *linCtx) condFacts(b *ssa.BasicBlock) []lin {
 			out = append(out, x.addScaled(y, -1))
 		case token.EQL:
 			out = append(out, x.addScaled(y, -1), y.addScaled(x, -1))
+		case token.NEQ:
+			// `i != -1` for the result of a strings/bytes Index function (which is -1 or an offset): i >= 0
+			for _, pr := range [][2]ssa.Value{{bo.X, bo.Y}, {bo.Y, bo.X}} {
+				k, isK := pr[1].(*ssa.Const)
+				if !isK || k.Value == nil || k.Value.Kind() != constant.Int {
+					continue
+				}
+				if n, ok := constant.Int64Val(k.Value); !ok || n != -1 {
+					continue
+				}
+				if isIndexResult(pr[0]) {
+					out = append(out, lc.expr(pr[0], 0))
+				}
+			}
 		}
 	}
 	return out
+}
+
+// isIndexResult: the value is the result of strings.Index*, strings.LastIndex*, bytes.Index* (-1 or an offset).
+func isIndexResult(v ssa.Value) bool {
+	call, ok := stripConv(v).(*ssa.Call)
+	if !ok {
+		return false
+	}
+	cal := call.Call.StaticCallee()
+	if cal == nil || cal.Pkg == nil {
+		return false
+	}
+	pp := cal.Pkg.Pkg.Path()
+	return (pp == "strings" || pp == "bytes") && (strings.HasPrefix(cal.Name(), "Index") || strings.HasPrefix(cal.Name(), "LastIndex"))
 }
 
 // infeasible: the system {f >= 0 : f in sys} has no rational solution (Fourier-Motzkin).
@@ -605,4 +633,152 @@ func describeLin(lc *linCtx, e lin) string {
 		parts = append(parts, fmt.Sprintf("%+d", e.c))
 	}
 	return strings.TrimPrefix(strings.Join(parts, " "), "+")
+}
+
+// ruleTokenOrder (T12-ORDER): two semantic tokens that one pass over a text emits one after the other do not
+// overlap and are in order.  A function that places tokens by byte offsets into a text (column = UTF-16 length of
+// text[:offset]) and emits token A and later, in the same iteration, token B (A's construction dominates B's) must
+// place B at or behind the end of A's lexeme: offset(B) >= offset(A) + bytes(A), where bytes(A) is A's length with
+// every UTF16Len(s) read as len(s) (the lexeme's size in the unit the offsets are in).  Decided by the linear prover
+// from the conditions in force (`i != -1` for a strings.Index result gives i >= 0).  A value token located by a
+// search that starts before the end of its tag (the cursor advanced only after the search) is not provable: the
+// value's text found earlier in the comment puts the token before or inside the tag, the delta encoding wraps.
+func ruleTokenOrder(c *Ctx) {
+	type tok struct {
+		place  ssa.Value
+		block  *ssa.BasicBlock
+		pos    token.Pos
+		col    ssa.Value
+		length ssa.Value
+	}
+	n := 0
+	for _, f := range c.P.ModuleFuncs() {
+		if f.Blocks == nil {
+			continue
+		}
+		toks := map[ssa.Value]*tok{}
+		var order []*tok
+		for _, b := range f.Blocks {
+			for _, ins := range b.Instrs {
+				st, ok := ins.(*ssa.Store)
+				if !ok {
+					continue
+				}
+				fa, ok := st.Addr.(*ssa.FieldAddr)
+				if !ok {
+					continue
+				}
+				k := fieldKey(fa.X.Type(), fa.Field)
+				if k != "server.semanticToken.col" && k != "server.semanticToken.length" {
+					continue
+				}
+				t := toks[fa.X]
+				if t == nil {
+					t = &tok{place: fa.X, block: b, pos: st.Pos()}
+					toks[fa.X] = t
+					order = append(order, t)
+				}
+				if k == "server.semanticToken.col" {
+					t.col = st.Val
+				} else {
+					t.length = st.Val
+				}
+			}
+		}
+		if len(order) < 2 {
+			continue
+		}
+		lp := newLinProver()
+		// offsetOf: col = ... + UTF16Len(text[:h]) ...  ->  (text, h)
+		var offsetOf func(v ssa.Value, depth int) (ssa.Value, ssa.Value)
+		offsetOf = func(v ssa.Value, depth int) (ssa.Value, ssa.Value) {
+			if depth > 8 {
+				return nil, nil
+			}
+			switch x := v.(type) {
+			case *ssa.Convert:
+				return offsetOf(x.X, depth+1)
+			case *ssa.ChangeType:
+				return offsetOf(x.X, depth+1)
+			case *ssa.BinOp:
+				if x.Op == token.ADD {
+					if t, h := offsetOf(x.X, depth+1); t != nil {
+						return t, h
+					}
+					return offsetOf(x.Y, depth+1)
+				}
+			case *ssa.Call:
+				if cal := x.Call.StaticCallee(); cal != nil && strings.HasSuffix(cal.Name(), "UTF16Len") && len(x.Call.Args) == 1 {
+					if sl, ok := stripConv(x.Call.Args[0]).(*ssa.Slice); ok && sl.Low == nil && sl.High != nil {
+						return stripConv(sl.X), sl.High
+					}
+				}
+			}
+			return nil, nil
+		}
+		// bytesOf: the length field with UTF16Len(s) read as len(s)
+		var bytesOf func(v ssa.Value, depth int) (lin, bool)
+		bytesOf = func(v ssa.Value, depth int) (lin, bool) {
+			out := newLin()
+			if depth > 8 {
+				return out, false
+			}
+			switch x := v.(type) {
+			case *ssa.Const:
+				if x.Value != nil && x.Value.Kind() == constant.Int {
+					if k, ok := constant.Int64Val(x.Value); ok {
+						out.c = k
+						return out, true
+					}
+				}
+			case *ssa.Convert:
+				return bytesOf(x.X, depth+1)
+			case *ssa.ChangeType:
+				return bytesOf(x.X, depth+1)
+			case *ssa.BinOp:
+				if x.Op == token.ADD {
+					a, ok1 := bytesOf(x.X, depth+1)
+					b, ok2 := bytesOf(x.Y, depth+1)
+					return a.addScaled(b, 1), ok1 && ok2
+				}
+			case *ssa.Call:
+				if cal := x.Call.StaticCallee(); cal != nil && strings.HasSuffix(cal.Name(), "UTF16Len") && len(x.Call.Args) == 1 {
+					arg := x.Call.Args[0]
+					k := fmt.Sprintf("len(%s@%p)", arg.Name(), arg)
+					lp.lc.leaf[k] = x
+					out.t[k] = 1
+					return out, true
+				}
+			}
+			return out, false
+		}
+		for _, a := range order {
+			ta, ha := offsetOf(a.col, 0)
+			if ta == nil || a.length == nil {
+				continue
+			}
+			la, ok := bytesOf(a.length, 0)
+			if !ok {
+				continue
+			}
+			for _, b := range order {
+				if a == b || !(a.block.Dominates(b.block)) || a.block == b.block {
+					continue
+				}
+				tb, hb := offsetOf(b.col, 0)
+				if tb == nil || tb != ta {
+					continue
+				}
+				n++
+				goal := lp.lc.expr(hb, 0).addScaled(lp.lc.expr(ha, 0), -1).addScaled(la, -1)
+				proved := lp.prove(goal, b.block, nil, 0)
+				c.check(proved, "T12-ORDER", funcName(f), "a token emitted after another starts at or behind the other's end", b.pos,
+					"offset(later) - offset(earlier) - bytes(earlier) = "+describeLin(lp.lc, goal)+" >= 0 is proved from the conditions in force",
+					"two tokens are placed by byte offsets into the same text, the second in the same iteration after the first, and offset(second) >= offset(first) + bytes(first) is not provable ("+describeLin(lp.lc, goal)+" >= 0): the search for the second lexeme can start before the end of the first, so the second token can lie before or inside the first - tokens out of document order, overlapping, a wrapped deltaStart")
+			}
+		}
+	}
+	// no floor: when the tokens are built by a constructor helper that is handed the offset, or the search is moved into
+	// a helper with several returns, the pair is no longer visible in one function and the rule says nothing
+	c.census("T12-ORDER", "pairs of tokens placed by byte offsets into one text in one iteration", n, 0)
 }
